@@ -50,7 +50,7 @@ def run_property(pid: str, tier: str) -> int:
             # analysis that could not be completed (often the violating edit is what made the next idiom unrecognisable)
             rep.note(f"analysis aborted after the reported violation(s): {e}")
             rep.rules = {rid: r for rid, r in rep.rules.items() if r["instances"] or r["violations"]}
-            code = rep.finish(prog, getattr(mod, "EXPLANATION", ""))
+            code = rep.finish(prog, getattr(mod, "EXPLANATION", ""), aborted=True)
             return code if code == 1 else 2
         return 2
     except Exception:
